@@ -172,6 +172,11 @@ func genData(t *rapid.T) C07Msg {
 	svcs := []string{"ping", "unreach", "echo", "nope", "", "control", "\xff\xfe"}
 	from, to := rapid.SampledFrom(names).Draw(t, "from"), rapid.SampledFrom(names).Draw(t, "to")
 	fs, ts := rapid.SampledFrom(svcs).Draw(t, "fs"), rapid.SampledFrom(svcs).Draw(t, "ts")
+	if rapid.IntRange(0, 5).Draw(t, "reserved-pair") == 0 {
+		// reserved services talking to reserved services, between and within the good nodes
+		from, to = rapid.SampledFrom([]string{"sut", "w"}).Draw(t, "rfrom"), rapid.SampledFrom([]string{"sut", "w"}).Draw(t, "rto")
+		fs, ts = rapid.SampledFrom([]string{"ping", "unreach"}).Draw(t, "rfs"), rapid.SampledFrom([]string{"ping", "unreach"}).Draw(t, "rts")
+	}
 	ttl := byte(rapid.SampledFrom([]int{0, 1, 2, 30, 255}).Draw(t, "ttl"))
 	var payload []byte
 	switch rapid.IntRange(0, 5).Draw(t, "payload") {
